@@ -222,7 +222,7 @@ func init() {
 		Rule: "v1 (package lib) cases are (a, b, metadata) over {none, SET, MULTISET, SET+Setkeys(id), MERGE (null-free), SET+MERGE, MULTISET+MERGE, SetPrecision(0.1), MULTISET+Setkeys(id)}: random structured pairs (plus set / multiset members that are 1-140 KB strings differing in one middle byte, multiplicities up to 257) with arrays growing, shrinking and changing in place, equal-under-reading pairs, keyed member pairs, " +
 			"every array pair over {1,2,3} up to length 4 at three positions; verdict: diff empty <=> lib Equals <=> independent oracle; Patch of the in-memory diff (on a fresh parse of a and on the very operand the diff was computed from) and of the rendered+re-read diff gives b (lib Equals and reference canon); plus the -v2=false binary pipeline; " +
 			"non-trivial = non-empty diff; distinct = distinct (a, b, metadata)",
-		Floors: map[string]int{"round_trips_ok": 50000, "diff_empty": 5000, "hunks>=2": 10000, "root_array_grows": 3000, "root_array_shrinks": 3000, "root_array_same_length": 3000, "cli_v1_pipelines": 200, "b_is_patch_result": 3000, "applied_to_the_operand_itself": 5000, "multiset_with_setkeys": 3000, "bulky_member_cases": 300},
+		Floors: map[string]int{"round_trips_ok": 50000, "diff_empty": 5000, "hunks>=2": 10000, "root_array_grows": 3000, "root_array_shrinks": 3000, "root_array_same_length": 3000, "cli_v1_pipelines": 200, "b_is_patch_result": 3000, "applied_to_the_operand_itself": 5000, "multiset_with_setkeys": 3000, "uncommon_metadata_pairs": 3000, "bulky_member_cases": 300},
 		Assumptions: []string{
 			"v1 needs SET next to Setkeys for keyed sets (dispatch looks at SET / MULTISET only)",
 			"MERGE inputs are null-free; Setkeys inputs satisfy the key precondition with scalar key values",
@@ -282,6 +282,23 @@ func init() {
 			c17Judge(c, ref.ToJSON(a), ref.ToJSON(b), v1MsetKeys)
 		},
 	})
+	// a less common pair: SET together with MULTISET (SET wins in v1's dispatch). SET together with a
+	// precision is not used: both binaries refuse it ("they use hashcodes"), and what the library does
+	// with it (tolerance outside arrays, digests inside) is not an equivalence any property names.
+	v1SetMset := V1Set{Name: "v1:SET+MULTISET", MD: func() []lib.Metadata { return []lib.Metadata{lib.SET, lib.MULTISET} }, Reading: ref.Set, Flags: []string{"-set", "-mset"}}
+	for _, m := range []V1Set{v1SetMset} {
+		m := m
+		p.Strata = append(p.Strata, mon.Stratum{
+			Name: "random/" + m.Name,
+			N:    qt(5000, 300000),
+			Run: func(c *mon.Ctx, i int) {
+				prof := []gen.Profile{gen.PTiny, gen.PDefault}[i%2]
+				a, b := v1Pair(c.R, m, prof, i)
+				c.Feature("uncommon_metadata_pairs")
+				c17Judge(c, ref.ToJSON(a), ref.ToJSON(b), m)
+			},
+		})
+	}
 	for _, m := range []V1Set{V1SetM, V1Mset} {
 		m := m
 		p.Strata = append(p.Strata, mon.Stratum{
